@@ -1111,3 +1111,196 @@ def u_resolve_dotted_path(ip: Interp, th: DottedTheory):
             continue
         ga = [e for e in s.trace if e[0] == "getattr"]
         ip.require(s, "post:returns-the-object-found-by-the-last-lookup", z3.BoolVal(isinstance(v, RefV)), P)
+
+
+# ======================================================================================================
+# the bundled client (client.ControlClient): what it sends is what the session expects
+# (C16: its handshake is the one-line JSON object with the key the session reads; C18: one line per command, one read per
+#  line).  Socket behaviour itself is C19 (not applicable).
+# ======================================================================================================
+CLI = "client.ControlClient."
+
+
+class ClientTheory(ControlTheory):
+    def initial(self) -> St:
+        st = St()
+        st.me = fresh("me", Ref)
+        st.sh = {"_conn_kwargs": RefV(z3.Const("CONN_KWARGS", Ref)), "_connected": BoolV(fresh("connected", B))}
+        return st
+
+
+def cli_unit(name, props, functions):
+    def deco(fn):
+        UNITS.append(Unit(name, fn, props, functions, theory_factory=ClientTheory, trusted=TRUSTED2 + ["input()/print(): console i/o of the client process; json.dumps is pure"]))
+        return fn
+
+    return deco
+
+
+@cli_unit("client.ControlClient", ("C16", "C18"), [CLI + "_client_info", CLI + "_server_handshake", CLI + "_get_command", CLI + "_interact", CLI + "start"])
+def u_client(ip: Interp, th: ClientTheory):
+    P = ("C16", "C18")
+    COLS = z3.Const("client_terminal_columns", I)
+    th.hooks["shutil.get_terminal_size"] = lambda s, fr, pos, kws, node: [(s, RefV(z3.Const("TERMINAL_SIZE", Ref)))]
+    th.hooks["attr.columns"] = lambda s, fr, v: [(s, IntV(COLS))]
+    dumps = z3.Function("json_dumps_width", I, S)
+
+    def json_dumps(s, fr, pos, kws, node):
+        v = ip.deref(s, pos[0])
+        ok = isinstance(v, KwV) and set(v.d) == {"terminal_width"} and isinstance(v.d["terminal_width"], IntV)
+        ip.require(s, "handshake:the-client-info-is-{terminal_width:<columns>}(the-key-ControlSession.client_handshake-reads)", z3.BoolVal(ok), ("C16",))
+        return [(s, StrV(dumps(v.d["terminal_width"].t) if ok else fresh("dumped", S)))]
+
+    th.hooks["json.dumps"] = json_dumps
+
+    def w_write(s, fr, recv, pos, kws, node):
+        v = pos[0]
+        s.trace.append(("write", v))
+        return [(s, NoneV())]
+
+    th.hooks["ref.write"] = w_write
+    th.hooks["ref.drain"] = lambda s, fr, recv, pos, kws, node: [(s, CoroV("builtin", "drain", {}))]
+
+    def aw_drain(s, fr, v, node):
+        s.trace.append(("drain",))
+        ok = s.fork()
+        bad = s.fork()
+        bad.tags.append("drain:connection-error")
+        e = ExcV("ConnectionError", [], ref=fresh("exc", Ref))
+        e.origin = "stream"
+        return [(ok, NoneV()), (bad, Exit(Exit.RAISE, e))]
+
+    th.hooks["await:drain"] = aw_drain
+    th.hooks["ref.read"] = lambda s, fr, recv, pos, kws, node: [(s, CoroV("builtin", "read", {}))]
+    th.hooks["await:read"] = lambda s, fr, v, node: (s.trace.append(("read",)), [(s, LineV(fresh("reply", S)))])[1]
+    th.hooks["ref.close"] = lambda s, fr, recv, pos, kws, node: (s.trace.append(("close",)), [(s, NoneV())])[1]
+    th.hooks["print"] = lambda s, fr, pos, kws, node: (s.trace.append(("print", len(pos), "file" in kws)), [(s, NoneV())])[1]
+    orig_value_attr = th.value_attr
+
+    def value_attr(s, fr, v, attr):
+        if isinstance(v, BuiltinV) and v.recv is None and v.name == "sys" and attr == "stderr":
+            return [(s, RefV(z3.Const("STDERR", Ref)))]
+        return orig_value_attr(s, fr, v, attr)
+
+    th.value_attr = value_attr
+    reader, writer = RefV(z3.Const("CLIENT_READER", Ref)), RefV(z3.Const("CLIENT_WRITER", Ref))
+    SELF = SelfV("ControlClient")
+
+    def run(st, name, args):
+        fi = ip.repo.get(CLI + name)
+        fr0 = Frame(None, fi.module, SELF, 0, qual="@unit")
+        if fi.is_async:
+            return ip.run_repo(st, fr0, fi, SELF, args, awaited=True)
+        return ip.exec_function(st, fi, SELF, args)
+
+    # ---- _server_handshake ------------------------------------------------------------------------------------
+    st = th.initial()
+    for s, v in run(st, "_server_handshake", {"reader": reader, "writer": writer}):
+        if isinstance(v, Exit):
+            ip.require(s, "handshake:only-a-connection-error-escapes", z3.BoolVal(v.val.cls == "ConnectionError"), P)
+            continue
+        ws = [e[1] for e in s.trace if e[0] == "write"]
+        ok = len(ws) == 2 and isinstance(ws[0], EncodedV) and isinstance(ws[1], BytesV) and ws[1].s == "\n"
+        ip.require(s, "handshake:sends-exactly-one-line:json({terminal_width:columns})+newline", z3.And(z3.BoolVal(ok), ws[0].t == dumps(COLS)) if ok else z3.BoolVal(False), ("C16",))
+        order = [e[0] for e in s.trace if e[0] in ("write", "drain", "read")]
+        ip.require(s, "handshake:then-reads-the-server's-answer-once", z3.BoolVal(order == ["write", "write", "drain", "read"]), ("C16",))
+        ip.require(s, "handshake:the-client-counts-as-connected", s.sh["_connected"].t, P)
+    # ---- _get_command -------------------------------------------------------------------------------------------
+    typed = fresh("typed_line", S)
+
+    def input_(s, fr, pos, kws, node):
+        outs = []
+        ok = s.fork()
+        ok.tags.append("input:line")
+        outs.append((ok, StrV(typed)))
+        for cls_ in ("EOFError", "KeyboardInterrupt"):
+            b = s.fork()
+            b.tags.append("input:" + cls_)
+            outs.append((b, Exit(Exit.RAISE, ExcV(cls_, []))))
+        return outs
+
+    th.hooks["input"] = input_
+    norm = z3.Function("str_lower", S, S)(z3.Function("str_strip", S, S)(typed))
+    EXIT = sym.str_lit("exit")
+    st = th.initial()
+    c0 = st.sh["_connected"].t
+    for s, v in run(st, "_get_command", {"writer": writer}):
+        if isinstance(v, Exit):
+            ip.require(s, f"_get_command:noraise:{v.val.cls}", z3.BoolVal(False), ("C18",))
+            continue
+        closed = [e for e in s.trace if e[0] == "close"]
+        if "input:EOFError" in s.tags:
+            ip.require(s, "_get_command:end-of-input-disconnects(closes-the-writer,no-command)", z3.And(z3.BoolVal(len(closed) == 1 and isinstance(v, NoneV)), z3.Not(s.sh["_connected"].t)), ("C18",))
+        elif "input:KeyboardInterrupt" in s.tags:
+            ip.require(s, "_get_command:ctrl-c-sends-nothing-and-stays-connected", z3.And(z3.BoolVal(not closed and isinstance(v, NoneV)), s.sh["_connected"].t == c0), ("C18",))
+        else:
+            is_exit = norm == EXIT
+            if closed:
+                ip.require(s, "_get_command:`exit`-disconnects", z3.And(is_exit, z3.BoolVal(isinstance(v, NoneV)), z3.Not(s.sh["_connected"].t)), ("C18",))
+            elif isinstance(v, NoneV):
+                ip.require(s, "_get_command:a-blank-line-sends-nothing", z3.And(z3.Not(is_exit), z3.Not(sym.str_nonempty(norm)), s.sh["_connected"].t == c0), ("C18",))
+            else:
+                ip.require(s, "_get_command:otherwise-the-typed-line(stripped,lower-cased)-is-the-command", z3.And(z3.Not(is_exit), v.t == norm, sym.str_nonempty(norm), s.sh["_connected"].t == c0) if isinstance(v, StrV) else z3.BoolVal(False), ("C18",))
+
+    # ---- _interact: one line out, one read --------------------------------------------------------------------------
+    def c_get_command(ip_, s, fr, selfv, args):
+        a = s.fork()
+        a.tags.append("cmd:none")
+        b = s.fork()
+        b.tags.append("cmd:text")
+        t = fresh("cmd", S)
+        b.assume(sym.str_nonempty(t))
+        b.aux["cmd"] = t
+        return [(a, NoneV()), (b, StrV(t))]
+
+    ip.contracts[CLI + "_get_command"] = c_get_command
+    st = th.initial()
+    for s, v in run(st, "_interact", {"reader": reader, "writer": writer}):
+        ws = [e[1] for e in s.trace if e[0] == "write"]
+        rd = [e for e in s.trace if e[0] == "read"]
+        if isinstance(v, Exit):
+            ip.require(s, f"_interact:noraise:{v.val.cls}", z3.BoolVal(False), ("C18",))
+        elif "cmd:none" in s.tags:
+            ip.require(s, "_interact:no-command:nothing-is-sent-or-read", z3.BoolVal(not ws and not rd), ("C18",))
+        else:
+            ok = len(ws) == 2 and isinstance(ws[0], EncodedV) and isinstance(ws[1], BytesV) and ws[1].s == "\n"
+            ip.require(s, "_interact:sends-the-command-as-exactly-one-line", z3.And(z3.BoolVal(ok), ws[0].t == s.aux["cmd"]) if ok else z3.BoolVal(False), ("C18",))
+            if "drain:connection-error" in s.tags:
+                ip.require(s, "_interact:a-lost-connection-disconnects-without-reading", z3.And(z3.BoolVal(not rd), z3.Not(s.sh["_connected"].t)), ("C18",))
+            else:
+                ip.require(s, "_interact:then-reads-exactly-one-reply(the-session-writes-exactly-one-per-line)", z3.BoolVal(len(rd) == 1), ("C18",))
+    # ---- start ----------------------------------------------------------------------------------------------------------
+    def c_open(ip_, s, fr, selfv, args):
+        a = s.fork()
+        a.tags.append("open:ok")
+        b = s.fork()
+        b.tags.append("open:failed")
+        return [(a, TupleV([reader, writer])), (b, TupleV([NoneV(), NoneV()]))]
+
+    ip.contracts[CLI + "_open_connection"] = c_open
+
+    def c_handshake(ip_, s, fr, selfv, args):
+        s.trace.append(("handshake",))
+        s.sh["_connected"] = BoolV(True)
+        return [(s, NoneV())]
+
+    def c_interact(ip_, s, fr, selfv, args):
+        s.trace.append(("interact",))
+        s.sh["_connected"] = BoolV(fresh("still_connected", B))
+        return [(s, NoneV())]
+
+    ip.contracts[CLI + "_server_handshake"] = c_handshake
+    ip.contracts[CLI + "_interact"] = c_interact
+    streams_exist = z3.And(reader.t != NONE, writer.t != NONE)
+    ip.loopspecs[(CLI + "start", 1)] = LoopSpec(lambda c: [("one-handshake-before-any-command", z3.BoolVal([e[0] for e in c.st.trace if e[0] in ("handshake", "interact")][:1] == ["handshake"] and
+                                                                                                             len([e for e in c.st.trace if e[0] == "handshake"]) == 1))], ("C16",), name="interact-while-connected")
+    st = th.initial()
+    st.assume(streams_exist)
+    for s, v in run(st, "start", {}):
+        hs = [e for e in s.trace if e[0] == "handshake"]
+        if isinstance(v, Exit):
+            ip.require(s, f"start:noraise:{v.val.cls}", z3.BoolVal(False), P)
+        elif "open:failed" in s.tags:
+            ip.require(s, "start:no-connection:no-handshake,no-command", z3.BoolVal(not hs and not [e for e in s.trace if e[0] == "interact"]), P)
+        else:
+            ip.require(s, "start:exactly-one-handshake,before-the-first-command;ends-only-when-disconnected", z3.And(z3.BoolVal(len(hs) == 1), z3.Not(s.sh["_connected"].t)), P)
